@@ -41,17 +41,39 @@ type ipWorld struct {
 	panicSfx func(tag, site string) string
 }
 
-const (
-	ipSrvIP = "10.0.0.1"
-	ipCliIP = "10.0.0.2"
-	ipAtkIP = "10.0.0.66"
-	ipPort  = 123
+// Host addresses of the IP worlds; a world may ask for IPv6 hosts by calling ipDrawFamily
+// before newIPWorld / newNTSWorld (runs execute one after the other in a worker process).
+var (
+	ipSrvIP  = "10.0.0.1"
+	ipCliIP  = "10.0.0.2"
+	ipAtkIP  = "10.0.0.66"
+	ipV6Next = false
 )
+
+const ipPort = 123
+
+func ipUseFamily(v6 bool) {
+	if v6 {
+		ipSrvIP, ipCliIP, ipAtkIP = "fd00:1::1", "fd00:1::2", "fd00:1::66"
+	} else {
+		ipSrvIP, ipCliIP, ipAtkIP = "10.0.0.1", "10.0.0.2", "10.0.0.66"
+	}
+}
+
+// ipDrawFamily lets the run's tape decide the address family of the next IP world.
+func ipDrawFamily(r *simcore.Run) {
+	ipV6Next = r.Tape.Bool(1, 4, "ipv6")
+	if ipV6Next {
+		r.Probe("ipv6-hosts")
+	}
+}
 
 func newIPWorld(r *simcore.Run, srvOffset time.Duration, srvSkewPPB int64) *ipWorld {
 	activate(r)
 	resetProm()
 	server.VerifResetTSS()
+	ipUseFamily(ipV6Next)
+	ipV6Next = false
 	w := &ipWorld{r: r, net: simnet.New(r), sent: map[uint64]*simnet.Datagram{}, delivered: map[uint64]*simnet.Datagram{}}
 	w.srv = w.net.AddHost("srv", simclock.New(srvOffset, srvSkewPPB, 1e-5), ipSrvIP)
 	w.cli = w.net.AddHost("cli", simclock.New(0, 0, 1e-5), ipCliIP) // the client's clock is the clock its deadlines use
